@@ -197,6 +197,41 @@ func cmdCheck(argv []string) int {
 				allObls = append(allObls, eng.freshResultObligations(fn, fc, ctx)...)
 			}
 		}
+		// specification functions whose (inductively proved) contracts were used as facts must be verified as well
+		if *only == "" {
+			verified := map[string]bool{}
+			for _, n := range names {
+				verified[n] = true
+			}
+			for changed := true; changed; {
+				changed = false
+				var pend []*ssa.Function
+				for fn := range eng.usedSpecContracts {
+					if !verified[fn.Name()] {
+						pend = append(pend, fn)
+					}
+				}
+				sort.Slice(pend, func(i, j int) bool { return pend[i].Name() < pend[j].Name() })
+				for _, fn := range pend {
+					verified[fn.Name()] = true
+					changed = true
+					fc := ld.byFn[fn]
+					rep := &funcReport{Name: pat + ":" + fn.Name() + " (spec function contract, by induction)", HasContract: true, Clauses: len(fc.Requires) + len(fc.Ensures), Kinds: map[string]int{}}
+					reports = append(reports, rep)
+					nContracted++
+					ctx, err := eng.VerifyFunction(fn)
+					if err != nil {
+						rep.Error = err.Error()
+						allObls = append(allObls, &Obligation{Name: fmt.Sprintf("%s:subset:%s", fn.Name(), err.Error()), Kind: "subset", Func: fn.Name(), Status: "error", Output: err.Error(), Ctx: ctx})
+						continue
+					}
+					for t := range ctx.trusted {
+						trusted[t] = true
+					}
+					allObls = append(allObls, ctx.obls...)
+				}
+			}
+		}
 		for t := range eng.trusted {
 			trusted[t] = true
 		}
